@@ -2,13 +2,13 @@
 package c09
 
 import (
-	"strings"
 	"bytes"
 	"compress/flate"
 	"compress/zlib"
 	"fmt"
 	"runtime"
 	"runtime/debug"
+	"strings"
 	"testing"
 	"time"
 
